@@ -11,11 +11,18 @@ def run(ctx):
                 "flight, and a reconnection family (two successive connections between the same Tubs, stale proxies sent home / "
                 "called / used after the second connection exists); several gifts (from one or two owners) inside one list / tuple / "
                 "set / dict / argument list / nested container, the carrying message cut at every byte position (quick: residue "
-                "classes) and the introductions completing A-first / D-first; AsyncAND on every fired/pending mixture up to 4 inputs")
+                "classes) and the introductions completing A-first / D-first; AsyncAND on every fired/pending mixture up to 4 inputs; three-party "
+                "histories on four real Tubs with message-granular delivery (4 fixed witnesses + random: exports from two owners with "
+                "colliding clids, gives of 1-3 proxies per call, the giver's application dropping at any point, every link direction "
+                "delivered separately incl. the giver's release traffic) compared after every action with the model lib/Gifts.v")
     ctx.assumptions = [
         "CPython collects a proxy on the last `del` (+gc.collect()): DropProxy is an explicit action; modelled, not verified",
         "FIFO byte streams both ways, one queue item per top-level banana object; eventual-queue FIFO order relied upon",
-        "third-party gifts (their-reference, Tub.getReference) are not in the Coq model: checked directly on three real Tubs",
+        "third-party gifts: three-party model lib/Gifts.v (gift table, acknowledgement, owner's name table) compared step by step with "
+        "four real Tubs; in it the owner<->giver and owner<->recipient connections are abstracted by the conclusions of the two-party "
+        "theorems (an object lives exactly while a proxy / an answer in flight designates it: pessimistic about the owner's release), "
+        "lookups and answers may be reordered (superset of FIFO); Tub.getReference's connection establishment is not modelled "
+        "(all connections exist beforehand; establishment during an introduction is exercised by the three-Tub scenarios only)",
         "the serialisation of calls/answers (banana, slicers) is exercised by the histories but not modelled",
     ]
     ok, log = ctx.coq_build(["props/C08.vo"])
@@ -32,10 +39,12 @@ def run(ctx):
     c08_impl.reconnect(ctx, "C08")
     model_ok = ok
     if not ok:
-        model_ok, _ = ctx.coq_build(["lib/Refs.vo"])
+        model_ok, _ = ctx.coq_build(["lib/Refs.vo", "lib/Gifts.vo"])
     if model_ok:
         R.correspond(ctx, "C08", results)
         c08_impl.wire_correspondence(ctx)
+    from harness import gifts_impl
+    gifts_impl.check_gifts(ctx, "C08", model_ok)
     c08_impl.asyncand_check(ctx, model_ok)
     # a failing input that is a listed known finding does not explain a broken proof
     known = common.load_known()
